@@ -121,11 +121,30 @@ class EmptyLen:
         return f"L{self.v}"
 
 
+class EqStr:
+    """data object that compares EQUAL to a str (and hashes like it) without being one: wherever the library means
+    identity (`is`) but writes `==`, this object is taken for the str -- e.g. for the tree's name"""
+
+    def __init__(self, v):
+        self.v = v
+
+    def __eq__(self, other):
+        return (isinstance(other, EqStr) and self.v == other.v) or (isinstance(other, str) and other == self.v)
+
+    def __hash__(self):
+        return hash(self.v)
+
+    def __repr__(self):
+        return f"Q<{self.v}>"
+
+
 def make_obj(spec: str):
     """build.make_obj plus  z:<v> (FalsyBool)  l:<v> (EmptyLen);  s: / i:0 / t: give "", 0, ();
     W:<n> = DictWrapper whose keys ARE entries of the custom key_map / value_map (for the library's own
     DictWrapper.serialize_mapper / deserialize_mapper, mapper style "dw")"""
     k, _, v = spec.partition(":")
+    if k == "q":
+        return EqStr(v)
     if k == "W":
         n = int(v)
         return DictWrapper({"t": ["e", "p", "i"][n % 3], "v": n, "str": f"q{n}", "title": f"w{n}"})
@@ -153,6 +172,8 @@ def is_fs_entry(o):
 def tag_val(o):
     if is_fs_entry(o):
         return "F", [o.name, o.is_dir, o.size, o.mdate]
+    if isinstance(o, EqStr):
+        return "q", o.v
     if isinstance(o, FalsyBool):
         return "z", o.v
     if isinstance(o, EmptyLen):
@@ -219,6 +240,8 @@ def deser_mapper(parent, data):
         return B.DC(v)
     if t == "w":
         return DictWrapper({"v": v})
+    if t == "q":
+        return EqStr(v)
     if t == "z":
         return FalsyBool(v)
     if t == "l":
@@ -232,8 +255,8 @@ CLASH_KM = {"t": "v", "n": "str", "kind": "data_id", "str": "x"}     # short nam
 PARTIAL_VM = {"t": ["e", "e", "i"], "kind": ["a"]}                   # does not cover all values; a duplicate
 TREE_DEFAULT_KM = {"data_id": "i", "str": "s"}    # Tree.DEFAULT_KEY_MAP: "s" is also FileSystemTree's size key (finding D51)
 CUSTOM_KM_FS = {"n": "nm", "m": "mt", "unused": "u"}
-CUSTOM_VM = {"t": ["e", "p", "i", "t", "d", "w", "z", "l"]}
-CUSTOM_VM_TYPED = {"t": ["l", "z", "w", "d", "t", "i", "p", "e"], "kind": ["zz", "c", "b", "a", "child"]}
+CUSTOM_VM = {"t": ["e", "p", "i", "t", "d", "w", "z", "l", "q"]}
+CUSTOM_VM_TYPED = {"t": ["q", "l", "z", "w", "d", "t", "i", "p", "e"], "kind": ["zz", "c", "b", "a", "child"]}
 
 _DERIVED = {}
 
@@ -270,7 +293,7 @@ def build_tree(desc):
     if desc.get("mapper") == "fs":
         from nutree.fs import FileSystemTree
         U = H.Universe([fs_obj(sp) for sp in desc["univ"]])
-        t = FileSystemTree("T")
+        t = FileSystemTree(desc.get("name", "T"))
         B.add_nodes(t._root, desc["nodes"], U, False)
         return t, U
     U = H.Universe([make_obj(sp) for sp in desc["univ"]])
@@ -278,7 +301,7 @@ def build_tree(desc):
         cls = derived_class(typed, desc.get("calc"))
     else:
         cls = base_class(typed)
-    t = cls("T", calc_data_id=B.calc_fn(desc.get("calc")))
+    t = cls(desc.get("name", "T"), calc_data_id=B.calc_fn(desc.get("calc")))
     B.add_nodes(t._root, desc["nodes"], U, typed)
     # history before the save: nodes re-keyed with set_data()/rename() AFTER the tree was built
     # (clone groups that never went through Tree._register)
@@ -628,6 +651,35 @@ def file_meta_reuse_check(cls, lkw, texts, reference):
                     f"instead of {reference} on {text[:300]}")
         if any(m.get(k) != v for k, v in hdr.items()):
             return f"file_meta: after load the caller's dict {m} does not contain the file's header {hdr}"
+    return None
+
+
+def branch_check(desc, tree):
+    """Node.to_list_iter() called on an inner node (a branch is written with that node as entry #0): the entries must
+    be the documented layout of the branch -- in particular for a start node whose data EQUALS a descendant's"""
+    import nutree
+    typed = bool(desc.get("typed"))
+    ms = desc.get("mapper", "cb")
+    if ms == "fs":
+        return None
+    skw, _l, _c = resolve_opts(desc)
+    kmap, vmap = doc_maps(desc, tree._root)
+    starts = [n for n in B.all_nodes(tree._root) if n._children]
+    for n in starts[:4]:
+        try:
+            exp = py_layout(n, typed=typed, kmap=kmap, vmap=vmap, meta=None, mapper=layout_mapper(ms), version=nutree.__version__)["nodes"]
+        except Exception:  # noqa: BLE001 (value list does not cover)
+            continue
+        try:
+            km = dict(kmap)
+            vm = {k: list(v) for k, v in vmap.items()}
+            mp = skw.get("mapper") or (tree.serialize_mapper if ms == "derived" else None)
+            got = json.loads(json.dumps(list(n.to_list_iter(mapper=mp, key_map=km, value_map=vm))))
+        except Exception as e:  # noqa: BLE001
+            return f"branch: to_list_iter() of node {n._data!r} fails: {e!r:.200}"
+        if got != json.loads(json.dumps(exp)):
+            return (f"branch: to_list_iter() called on node {n._data!r} gives {json.dumps(got)[:400]}, the layout of that branch is "
+                    f"{json.dumps(exp)[:400]}")
     return None
 
 
